@@ -1448,7 +1448,8 @@ class Engine:
                     if isinstance(v, Raise):
                         out.append((s2, v)); continue
                     if k.arg is None:
-                        nxt.append((s2, pos, {**kw, '**': v}))
+                        # f(..., **a, **b): the second mapping is kept apart (only contract call models look at it)
+                        nxt.append((s2, pos, {**kw, ('**2' if '**' in kw else '**'): v}))
                     else:
                         nxt.append((s2, pos, {**kw, k.arg: v}))
             states = nxt
@@ -1586,6 +1587,8 @@ class Engine:
         names = [x.arg for x in args.posonlyargs + args.args]
         defaults = dict(zip(names[len(names) - len(args.defaults):], args.defaults))
         kw = dict(kw)
+        if '**2' in kw:
+            raise OutOfSubset("two ** mappings at a call of a known function")
         star = kw.pop('**', None)
         a = list(a)
         if any(isinstance(x, tuple) and x[0] == '*' for x in a):
